@@ -16,6 +16,8 @@ def build(repo, tier, seed):
     r.level = LEVEL
     b = run.rt_call("C08", "layouts_random", {"family": "C08", "seed": seed, "n": 40 if tier == "quick" else 1500})
     r.bounded.append(b if "name" in b else {"name": "layouts_random", "error": b.get("error", b)})
+    b = run.rt_call("C08", "kaifa_text_control_octets", {"seed": seed})
+    r.bounded.append(b if "name" in b else {"name": "kaifa_text_control_octets", "error": b.get("error", b)})
     if SWEEP:
         b = run.rt_call("C08", "float_sweep", {"seed": seed, "full": tier == "thorough"}, timeout=3000)
         r.bounded.append(b if "name" in b else {"name": "float_sweep", "error": b.get("error", b)})
